@@ -1,7 +1,7 @@
 //! C02 — DltMessage::to_write / re-parse / second write vs Dlt/Write.v (+ Dlt/Frame.v, Dlt/Iter.v)
 //! Family 1 (stream): a byte stream is read with the real iterator, every message is written with to_write, the
 //! written bytes are read again and written again.  Family 2 (msg): DltMessage values built field by field are
-//! written (exercises the u16 length arithmetic incl. the debug-build overflow panic).
+//! written (exercises the length arithmetic incl. the Err returned when header + payload exceed the u16 len field).
 use adlt::dlt::{parse_dlt_with_storage_header, DltChar4, DltExtendedHeader, DltMessage, DltStandardHeader};
 use adlt::utils::DltMessageIterator;
 use std::io::Cursor;
@@ -59,15 +59,30 @@ fn read_all(start: u32, data: &[u8]) -> Result<Read, String> {
     })
 }
 
-fn write_all(ms: &[DltMessage]) -> Result<Vec<u8>, String> {
+/// outcome of `for m in ms { m.to_write(&mut v)? }`
+enum W {
+    Ok(Vec<u8>),
+    /// to_write returned Err: what is in the writer by then
+    IoErr(Vec<u8>, String),
+}
+fn write_all_w(ms: &[DltMessage]) -> Result<W, String> {
     let ms = ms.to_vec();
     catch_loc(move || {
         let mut v = vec![];
         for m in &ms {
-            m.to_write(&mut v).unwrap();
+            if let Err(e) = m.to_write(&mut v) {
+                return W::IoErr(v, e.to_string());
+            }
         }
-        v
+        W::Ok(v)
     })
+}
+/// bytes, or a description of the panic / io error
+fn write_all(ms: &[DltMessage]) -> Result<Vec<u8>, String> {
+    match write_all_w(ms)? {
+        W::Ok(v) => Ok(v),
+        W::IoErr(_, e) => Err(format!("to_write returned Err: {}", e)),
+    }
 }
 
 fn same_fields(a: &DltMessage, b: &DltMessage) -> Result<(), String> {
@@ -141,7 +156,7 @@ fn record_stream(sink: &mut Sink, start: u32, segs: Segs, extra: &[&str]) {
             tags.push(if in_domain { "in_domain".into() } else { "micros_ge_1e6".into() });
             tags.push(format!("msgs{}", r1.msgs.len().min(9)));
             let items1: Vec<O> = r1.msgs.iter().map(|m| o_item(&item_of(m))).collect();
-            match write_all(&r1.msgs) {
+            match write_all_w(&r1.msgs) {
                 Err(e) => {
                     tags.push("write_panic".into());
                     if in_domain {
@@ -149,7 +164,14 @@ fn record_stream(sink: &mut Sink, start: u32, segs: Segs, extra: &[&str]) {
                     }
                     O::T(vec![O::L(2), O::T(items1)])
                 }
-                Ok(b1) => match read_all(start, &b1) {
+                Ok(W::IoErr(p, e)) => {
+                    tags.push("write_io_err".into());
+                    if in_domain {
+                        verdict = fail("write_ok", format!("to_write returned Err: {}", e));
+                    }
+                    O::T(vec![O::L(4), O::T(items1), o_wbytes(&p)])
+                }
+                Ok(W::Ok(b1)) => match read_all(start, &b1) {
                     Err(_) => O::T(vec![O::L(3)]),
                     Ok(r2) => {
                         let b2 = write_all(&r2.msgs);
@@ -255,11 +277,15 @@ fn record_msg(sink: &mut Sink, c: CMsg, extra: &[&str]) {
         payload_text: None,
         lifecycle: 0,
     };
-    let r = write_all(&[m]);
+    let r = write_all_w(&[m]);
     let mut tags: Vec<String> = extra.iter().map(|s| s.to_string()).collect();
     tags.push("msg".into());
     let obs = match &r {
-        Ok(b) => O::T(vec![O::L(0), o_wbytes(b)]),
+        Ok(W::Ok(b)) => O::T(vec![O::L(0), o_wbytes(b)]),
+        Ok(W::IoErr(p, _)) => {
+            tags.push("write_io_err".into());
+            O::T(vec![O::L(3), o_wbytes(p)])
+        }
         Err(_) => {
             tags.push("write_panic".into());
             O::T(vec![O::L(1)])
